@@ -5,6 +5,7 @@
 //!   pvharness replay <Cxx> <outdir> < caselines     (one case line per stdin line)
 mod c01;
 mod c02;
+mod c03;
 mod c05;
 mod c06;
 mod c07;
@@ -45,6 +46,7 @@ fn main() {
                 "C18" => c18::run(seed, thorough, &mut out),
                 "C01" => c01::run(seed, thorough, &mut out),
                 "C02" => c02::run(seed, thorough, &mut out),
+                "C03" => c03::run(seed, thorough, &mut out),
                 "C05" => c05::run(seed, thorough, &mut out),
                 "C06" => c06::run(seed, thorough, &mut out),
                 "C07" => c07::run(seed, thorough, &mut out),
@@ -75,6 +77,7 @@ fn main() {
                     "C18" => c18::replay(line, &mut out),
                     "C01" => c01::replay(line, &mut out),
                     "C02" => c02::replay(line, &mut out),
+                    "C03" => c03::replay(line, &mut out),
                     "C05" => c05::replay(line, &mut out),
                     "C06" => c06::replay(line, &mut out),
                     "C07" => c07::replay(line, &mut out),
